@@ -218,6 +218,93 @@ def _asyncio_timeout_identity(inputs, params):
 PREDICATES = {"asyncio_timeouterror_identity": _asyncio_timeout_identity}
 
 
+def _overlapping(flavour, n=6):
+    """enumerated, concrete: n callers in n threads execute payloads that finish in reverse order of their start;
+    each caller must get its own payload's outcome.  -> list of problems"""
+    w = rt.World(accept_delay=0.02)
+    runner = w.runner
+    F = rt.FLAVOURS[flavour]
+    problems, results = [], {}
+    tokens = [object() for _ in range(n)]
+    errors = [UserError(i) for i in range(n)]
+
+    def make(i):
+        delay = 0.03 * (n - i)
+        if flavour == "threading":
+            def payload():
+                time.sleep(delay)
+                if i % 2:
+                    raise errors[i]
+                return tokens[i]
+        elif flavour == "asyncio":
+            async def payload():
+                await asyncio.sleep(delay)
+                if i % 2:
+                    raise errors[i]
+                return tokens[i]
+        else:
+            async def payload():
+                await trio.sleep(delay)
+                if i % 2:
+                    raise errors[i]
+                return tokens[i]
+        return payload
+
+    def call(i):
+        try:
+            results[i] = ("return", runner.execute(make(i), flavour=F))
+        except BaseException as e:  # noqa: B036
+            results[i] = ("raise", e)
+
+    try:
+        w.start()
+        if not w.wait_running():
+            return ["runner never reported running"]
+        threads = [threading.Thread(target=call, args=(i,), daemon=True) for i in range(n)]
+        for t in threads:
+            t.start()
+            time.sleep(0.005)
+        for t in threads:
+            t.join(rt.BOUND)
+        if any(t.is_alive() for t in threads):
+            problems.append("an overlapping execute call never returned")
+        for i in range(n):
+            want = ("raise", errors[i]) if i % 2 else ("return", tokens[i])
+            got = results.get(i)
+            if got is None or got[0] != want[0] or got[1] is not want[1]:
+                problems.append("caller %d expected %s of its own payload but got %r" % (i, want[0], got))
+                break
+        if not (runner.running.is_set() and w.thread.is_alive()):
+            problems.append("the runtime stopped running")
+    finally:
+        try:
+            w.cleanup()
+        except Exception as e:
+            problems.append("cleanup failed: %s" % e)
+    return problems
+
+
+def extra(tier, seed):
+    violations = []
+    for f in FLAV:
+        problems = _overlapping(f)
+        if problems:
+            problems = _overlapping(f)
+        for msg in problems[:1]:
+            violations.append({"harness": "overlapping_execute", "label": "overlapping execute calls each get their own outcome (enumerated scenario)",
+                               "inputs": {"flavour": f, "problem": msg}, "params": {}, "status": "confirmed", "kind": "custom",
+                               "module": MOD, "property": PROPERTY})
+    return {"violations": violations, "enumerated_overlap_scenarios": ["6 overlapping execute calls, flavour %s" % f for f in FLAV],
+            "enumerated_note": "concrete real-runtime scenarios on one OS schedule each: NOT solver-decided"}
+
+
+def replay(v):
+    problems = _overlapping(v["inputs"]["flavour"])
+    print(problems)
+    print("REPRODUCED" if problems else "not reproduced on this tree")
+    return 1 if problems else 0
+
+
 def tasks(tier, seed):
     out = []
     wit = 3 if tier == "quick" else 1
